@@ -35,7 +35,7 @@ def h_online(f, N, ext=True, kind='combined'):
     def body(env):
         A = env.A
         son = dt.make_spec(kind, 'out = ' + text(f), vs)
-        soff = dt.make_spec('offline', 'out = ' + text(f), vs)
+        soff = dt.make_spec('offline~', 'out = ' + text(f), vs)
         w = dt.trace(env, vs, N, ext=ext and not uf)
         if uf:
             for v in vs:
